@@ -7,6 +7,7 @@ rotations x random admissible constants (traced, so one compilation serves all c
 history-generated states (reference rotations rotate the state consistently).
 """
 import math
+import os
 
 import numpy as onp
 
@@ -18,6 +19,7 @@ LEVEL = "exploration"
 B = 32  # batch size of the compiled-batch mode (>= 8)
 PAIR_CLASSES = ("two_equal", "uniaxial_inplane", "equibiaxial")
 D8_KEY = "D8:batched-eigen-repeated-pair-not-axis-aligned"
+KF = "[D8-class]"  # clause-name suffix of evaluations inside the known-finding class (keeps closest_calls of the must-hold part clean)
 
 RULE = ("case = (model/option, execution mode, deformation class, seed) -> one random admissible constant set and 32 points F=R.U "
         "(principal log stretches 1e-3..1 in the class pattern, U frame and polar rotation R from {I, in-plane, Haar}), each with its own "
@@ -27,7 +29,7 @@ RULE = ("case = (model/option, execution mode, deformation class, seed) -> one r
         "case of a distinct constant set; distinct = canonical hash of the case parameters.")
 ASSUMPTIONS = [
     "the identities are compared up to a rounding bound: 1e-11*(|W|+mu|E|^2) + 16*eps*(mu+kappa)*|E| (the rotated input QF-I is itself "
-    "only known to eps) + 16*eps*(mu+kappa) for models whose formula subtracts O(1) quantities (I1bar-3, J^2/2-1/2-log J: neo-Hookean, "
+    "only known to eps) + 64*eps*(mu+kappa) for models whose formula subtracts O(1) quantities (I1bar-3, J^2/2-1/2-log J: neo-Hookean, "
     "Gent, equilibrium branch of the viscoelastic models); observed worst ratio is recorded under closest_calls",
     "the library factories only do arithmetic on the numeric entries of the property dictionary, so passing them as traced values "
     "executes the same code as passing python floats (one concrete-constant replica per configuration is compared with the traced build)",
@@ -60,9 +62,10 @@ STATEFUL_FINITE = [n for n in Z.NAMES if Z.CONFIGS[n]["finite"] and Z.CONFIGS[n]
 
 def build_cases(tier, seed):
     quick = tier == "quick"
-    n_cls = 2 if quick else 160
+    n_cls = 2 if quick else 60
+    nb = 1 if quick else 8          # batches of 32 points per case
     n_ref = 1 if quick else 12
-    n_hist = 2 if quick else 100
+    n_hist = 2 if quick else 120
     cases = []
     for name in Z.NAMES:
         cfg = Z.CONFIGS[name]
@@ -76,12 +79,16 @@ def build_cases(tier, seed):
                 continue
             for cls in Z.STRETCH_CLASSES:
                 for i in range(n_cls):
-                    cases.append({"cls": "%s/%s" % (cls, mode), "cfg": name, "mode": mode, "group": group, "cost": 1.0,
+                    cases.append({"cls": "%s/%s" % (cls, mode), "cfg": name, "mode": mode, "group": group, "nb": nb,
+                                  "cost": nb * (1.0 if mode == "batched" else 4.0),
                                   "seed": derive_seed(seed, PROPERTY, cls, name, mode, i)})
             if name in STATEFUL_FINITE:
                 for i in range(n_hist):
-                    cases.append({"cls": "history/" + mode, "cfg": name, "mode": mode, "group": group, "cost": 3.0,
+                    cases.append({"cls": "history/" + mode, "cfg": name, "mode": mode, "group": group, "cost": 15.0,
                                   "seed": derive_seed(seed, PROPERTY, "history", name, mode, i)})
+    only = os.environ.get("VERIF_ONLY_CFG")  # debugging / mutation runs only (use together with --only so that no evidence is written)
+    if only:
+        cases = [c for c in cases if only in c["cfg"]]
     return cases
 
 
@@ -142,7 +149,7 @@ def _eval(fn, mode, H, S, dt, cvec, A):
 def _allowed_energy(name, mu, kappa, W, e2):
     a = 1e-11 * (abs(W) + mu * e2) + 16.0 * EPS * (mu + kappa) * math.sqrt(e2)
     if name in CANCELLING:
-        a += 16.0 * EPS * (mu + kappa)
+        a += 64.0 * EPS * (mu + kappa)
     return a
 
 
@@ -202,15 +209,19 @@ def _check_points(res, name, mode, cls, cvec, dt, F, Q, S, SQ, A, e2, tag=""):
             res.count("d8_class_points")
         elif mode == "batched" and cls in PAIR_CLASSES:
             res.count("batched_pair_class_noneigen_points")
-        res.bound("objectivity_QF" + tag, abs(wq[i] - w0[i]), allowed, dict(det, WQF=wq[i], F=F[i], Q=Q[i]), m)
+        ok = res.bound("objectivity_QF" + tag + (KF if m else ""), abs(wq[i] - w0[i]), allowed, dict(det, WQF=wq[i], F=F[i], Q=Q[i]), m)
+        if m and not ok:
+            res.count("d8_class_failed_clauses")
         res.count("objectivity_evals:" + mode)
         m = _mech(name, mode, cls, F[i], FQ[i])
-        res.bound("isotropy_FQ" + tag, abs(wr[i] - w0[i]), allowed, dict(det, WFQ=wr[i], F=F[i], Q=Q[i]), m)
+        ok = res.bound("isotropy_FQ" + tag + (KF if m else ""), abs(wr[i] - w0[i]), allowed, dict(det, WFQ=wr[i], F=F[i], Q=Q[i]), m)
+        if m and not ok:
+            res.count("d8_class_failed_clauses")
         res.count("isotropy_evals:" + mode)
         tau = p0[i] @ F[i].T
         nt = float(onp.linalg.norm(tau))
         m = _mech(name, mode, cls, F[i])
-        res.bound("kirchhoff_symmetry" + tag, float(onp.abs(tau - tau.T).max()), 1e-10 * nt + 1e-300,
+        res.bound("kirchhoff_symmetry" + tag + (KF if m else ""), float(onp.abs(tau - tau.T).max()), 1e-10 * nt + 1e-300,
                   dict(det, tau=tau, F=F[i]), m)
         res.count("tau_symmetry_evals:" + mode)
     return w0
@@ -286,6 +297,11 @@ def _j2_regime_counts(res, name, cvec, logs_list):
 
 
 def _run_class(res, case, rng):
+    for _ in range(case.get("nb", 1)):  # every batch of 32 points has its own constant set
+        _run_class_batch(res, case, rng)
+
+
+def _run_class_batch(res, case, rng):
     name, mode = case["cfg"], case["mode"]
     cls = case["cls"].split("/")[0]
     ys = None
@@ -326,7 +342,12 @@ def _run_history(res, case, rng):
         hist = Z.gen_history(name, cvec, rng, int(rng.integers(3, 9)))
         states = Z.run_history(name, cvec, hist, Sfn)
         if states[-1] is None:
+            # compute_state_new returned a non-finite state: not a C08 clause (C09/C17 territory); counted, witnessed in the evidence
             res.count("history_nonfinite_state")
+            k = len(states) - 1
+            res.obs.setdefault("nonfinite_state_witness", []).append(
+                {"cfg": name, "cvec": list(cvec), "H": hist[k][0].tolist(), "dt": hist[k][1],
+                 "state_before": (states[k - 1] if k > 0 else Z.initial_state(name)).tolist()})
             continue
         st = states[-1]
         pt = Z.stretch_point("distinct", rng, 1e-3, 0.3)
@@ -373,3 +394,10 @@ def run_case(case):
     else:
         _run_class(res, case, rng)
     return res
+
+
+def finalize(results, tier):
+    wit = []
+    for r in results:
+        wit.extend(r.get("obs", {}).get("nonfinite_state_witness", []) or [])
+    return {"nonfinite_state_witnesses(compute_state_new; not a C08 clause)": wit[:10]}
